@@ -11,18 +11,22 @@ returned.  Here the parser itself is the model (`Py.urlsplit` + the `SplitResult
 
 * `urlsplit_urlunsplit` — the parser inverts the printer on well-formed 5-tuples (`WF`);
 * `accessors_unsplitNetloc` — the accessors invert `unsplit_netloc`;
+* `canonicalize_accepts_iff` — `canonicalize_url` returns exactly when the cleaned string
+  parses and its userinfo holds no bracket (`Accepted`; `ValueError` otherwise), and then
+  prints `canonParts` of the parse;
 * `canonParts_wf` — what `canonicalize_url` hands to the printer is well-formed;
 * `canonicalize_reparse` — the parse of the OUTPUT STRING is the components `canonComps`
-  computed (`reparsed`), hence (`canonicalize_same_resource`) every per-component theorem of
-  `Props/C01.lean` is a statement about the re-parsed output.
+  computed (`reparsedOf`), hence (`canonicalize_same_resource`) every per-component theorem
+  of `Props/C01.lean` is a statement about the re-parsed output.
 
 Side conditions, all explicit: the default protocol is scheme-shaped (so that the cleaned
-string has a scheme: `https`, `http`, `ftp`, `wss:` …); the decoder `puny` invents no
-delimiter (`PunyClean`, tested on the real codec on every run); and brackets occur only
-around an IP literal that is still one after the host rule (`NoOddBracket`, `hbr`) — outside
-that region the statement is FALSE for the implementation too (KF-C01-1, KF-C01-2), see
-`reparse_fails_outside`.  For netlocs without any bracket no side condition is left
-(`canonicalize_reparse`).
+string has a scheme: `https`, `http`, `ftp`, `wss:` …) and the decoder `puny` invents no
+delimiter and empties no label (`PunyClean`, tested on the real codec on every run).  No
+hypothesis on brackets is left: the two regions the former `canonicalize_reparse_partial`
+excluded (`NoOddBracket`, `hbr`) were defects of the implementation (KF-C01-1, KF-C01-2), now
+fixed (FX-C01-USERBRACKETS: a bracket in the userinfo is rejected; FX-C01-IPBRACKETS: a
+bracketed host keeps its brackets), and that the canonical host of an ip literal still
+passes the bracket check is proved (`Lemmas/BracketHost.lean`).
 -/
 namespace Ural.Props.C01
 open Ural Ural.Py Ural.UrlParts Ural.Quote Ural.Canonicalize Ural.UrlRoundTrip Ural.CanonRoundTrip
